@@ -25,6 +25,7 @@ BOUNDS = {
     "bounded_cas_files_named_after_their_bytes_on_shard_boundaries": "5 blobs on neighbouring shard boundaries found by brute force",
     "bounded_failed_blob_unlink_is_contained": "one failing unlink of an unreferenced blob (path turned into a directory), then a re-put of the same content, 5 further blob-deleting operations, one reopen",
     "bounded_large_log_records_survive_reopen_and_stay_checked": "log records from 45 B to 6 MB (keys of 0..5,000,000 bytes, one Remove of all), two kill images + clean reopen, 5 single-byte changes behind the largest record",
+    "bounded_failed_append_version_gap_survives_restarts": "one failed WAL append right after a reopen (EISDIR on the segment path), x {checkpoint, none} x {1, 3} later puts, two further reopens",
     "bounded_single_io_fault_is_contained": "5 single faults (WAL append after a mid-segment reopen; snapshot write with / without an earlier snapshot / on a brand-new store; staging write), EFBIG via RLIMIT_FSIZE in a child process",
     "bounded_cleanup_of_staging_leftover_alone": "one store whose only garbage is one staging file of a crashed transaction",
     "bounded_settings_version_gate": "11 foreign or malformed stored version values incl. 2^32+v and 2^64-1",
